@@ -26,6 +26,7 @@
 -/
 import NemoVerif.Lemmas.Layout
 import NemoVerif.Lemmas.NumberedLines
+import NemoVerif.Lemmas.PreExpand
 import NemoVerif.Models.ErrWrap
 
 namespace NemoVerif.C13
@@ -194,6 +195,44 @@ theorem numbered_lines_trailing_opener_witness :
   (`lead`), but the multi-line-string record's `multiline_indentation` also counts trailing blanks, and what the
   1 900-line parser does with the numbers (it only compares them) is outside the model.
 -/
+
+/-! ## Colang 2.x: the line-based pre-parsing expansion of `...` (runs before the lexer) -/
+
+open NemoVerif.NumberedLines NemoVerif.PreExpand in
+/-- Trailing whitespace (any `str.isspace` characters) on ANY line — a stand-alone `...` statement, a docstring
+    marker, anything, in any docstring state — changes the output of `_apply_pre_parsing_expansions` only by the same
+    whitespace at the end of the last line that this line is rewritten to; the docstring state and every other line
+    are untouched.  (Together with `layout_trailing` this is why trailing blanks are harmless; the composition
+    character-level → piece-level is by correspondence.)  An end-anchored pattern `…\.\.\.$` breaks exactly this. -/
+theorem preexpand_trailing (d : Bool) (pre post : List Str) (l ws : Str) (hws : ∀ c ∈ ws, isPyWs c = true) :
+    PreExpand.run d (pre ++ (l ++ ws) :: post) =
+      (PreExpand.runPre d pre).2 ++ appendLast ws (PreExpand.step (PreExpand.runPre d pre).1 l).2
+        ++ PreExpand.run (PreExpand.step (PreExpand.runPre d pre).1 l).1 post ∧
+    PreExpand.run d (pre ++ l :: post) =
+      (PreExpand.runPre d pre).2 ++ (PreExpand.step (PreExpand.runPre d pre).1 l).2
+        ++ PreExpand.run (PreExpand.step (PreExpand.runPre d pre).1 l).1 post := by
+  constructor
+  · rw [PreExpand.run_append]
+    simp only [PreExpand.run, PreExpand.step_trailing _ l ws hws, List.append_assoc]
+  · rw [PreExpand.run_append]
+    simp only [PreExpand.run, List.append_assoc]
+
+open NemoVerif.NumberedLines NemoVerif.PreExpand in
+/-- A blank line (empty or whitespace only) inserted anywhere is passed through verbatim at the corresponding place
+    of the output; nothing else changes (it is never mistaken for a `...` statement or a docstring marker). -/
+theorem preexpand_blank (d : Bool) (pre post : List Str) (b : Str) (hb : strip b = []) :
+    PreExpand.run d (pre ++ b :: post) = (PreExpand.runPre d pre).2 ++ b :: PreExpand.run (PreExpand.runPre d pre).1 post ∧
+    PreExpand.run d (pre ++ post) = (PreExpand.runPre d pre).2 ++ PreExpand.run (PreExpand.runPre d pre).1 post := by
+  constructor
+  · rw [PreExpand.run_append]
+    simp only [PreExpand.run, PreExpand.step_blank _ b hb, List.singleton_append]
+  · rw [PreExpand.run_append]
+
+open NemoVerif.PreExpand in
+/-- kernel-checked witness (finite fact): `  ...` followed by two blanks IS expanded (8 output lines, the blanks end up alone on the last). -/
+theorem preexpand_trailing_witness :
+    (preExpand [[' ', ' ', '.', '.', '.', ' ', ' ']]).length = 8 ∧ (preExpand [[' ', ' ', '.', '.', '.', ' ', ' ']]).getLast? = some [' ', ' '] := by
+  decide
 
 /-! ## Error wrapper -/
 
